@@ -170,6 +170,11 @@ def runSetCol (prop fS tyS srcS extS implS0 : String) : Result :=
     let isPanic := match impl with | .panic _ => true | _ => false
     let p : Option String :=
       if isPanic then some "panic"
+      else if prop == "C09" then
+        -- a column declared with an integer raw type never holds anything but null or an integer of that type
+        match ty, impl with
+        | .int _, .ok r => if (r matches .nil) || Cast.typeOf r == ty then none else some "integer-column-holds-an-unconverted-value"
+        | _, _ => none
       else if prop == "C11" then
         match f, binWidth ty, reS with
         | .binary, some w, some re =>
